@@ -322,6 +322,251 @@ class EntryPredicate:
         return lits, rows
 
 
+class ChainPredicate(EntryPredicate):
+    """the same decision procedure written as an iterator chain: `<map>.iter() [.filter(p)]* .all(q)` / `.any(q)` whose result
+    (possibly negated) is what the function returns.  Per entry: a filter that fails means "next entry"; `all`: q false ->
+    false, else next; `any`: q true -> true, else next; when the entries run out: true for `all`, false for `any`."""
+
+    ITER_SRC = ("std::collections::HashMap::<K, V, S, A>::iter", "std::iter::IntoIterator::into_iter", "std::ops::Deref::deref",
+                "std::collections::BTreeMap::<K, V, A>::iter")
+
+    def __init__(self, F, fn):
+        self.F = F
+        self.fn = fn
+        self.du = mir.DefUse(fn)
+        self.cfg = mir.CFG(fn)
+        terms = [(bi, t) for bi, t in mir.calls(fn) if (t.get("callee") or "") in ("std::iter::Iterator::all", "std::iter::Iterator::any")]
+        if len(terms) != 1:
+            raise Shape("expected exactly one all(..) / any(..) over the entries, found %d" % len(terms))
+        self.term_bb, self.term_t = terms[0]
+        self.quant = self.term_t["callee"].rsplit("::", 1)[-1]
+        # the result is what is returned (possibly through `!`)
+        self.negated = None
+        for o in mir.provenance(fn, self.du, {"cp": {"l": 0, "p": []}}):
+            if o.kind == "call" and o.term is self.term_t:
+                self.negated = False
+        if self.negated is None:
+            neg = [st for _, _, st in mir.stmts(fn) if st["rv"]["k"] == "unop" and st["rv"].get("op") == "Not" and mir.op_place(st["rv"]["a"]) is not None
+                   and mir.op_place(st["rv"]["a"])["l"] == self.term_t["dest"]["l"]]
+            if neg and not self.term_t["dest"]["p"]:
+                self.negated = True
+            else:
+                raise Shape("the result of the quantifier is not what the function returns")
+        # walk the chain back to the iterated parameter, collecting the filters
+        self.stages = []
+        cur = self.term_t
+        hops = 0
+        while True:
+            hops += 1
+            if hops > 6:
+                raise Shape("iterator chain too long")
+            src = [o for o in mir.provenance(fn, self.du, cur["args"][0], transparent_extra=("std::iter::Iterator::by_ref",)) if o.kind == "call"]
+            if len(src) != 1:
+                args = {o.local for o in mir.provenance(fn, self.du, cur["args"][0], transparent_extra=self.ITER_SRC) if o.kind == "arg"}
+                if len(args) == 1:
+                    self.iter_arg = args.pop()
+                    break
+                raise Shape("the chain does not start at one parameter's entries")
+            c = src[0].callee
+            if c == "std::iter::Iterator::filter":
+                self.stages.insert(0, ("filter", self._closure_of(src[0].term)))
+                cur = src[0].term
+                continue
+            args = {o.local for o in mir.provenance(fn, self.du, cur["args"][0], transparent_extra=self.ITER_SRC) if o.kind == "arg"}
+            if len(args) == 1 and (c in self.ITER_SRC or c.endswith("::iter")):
+                self.iter_arg = args.pop()
+                break
+            raise Shape("adaptor %s in the chain" % c.split("::")[-1])
+        self.stages.append((self.quant, self._closure_of(self.term_t)))
+        self.head = self.term_bb
+        self.body = set()
+
+    def _closure_of(self, t):
+        """(closure fn, {capture index: owner parameter local})"""
+        fn = self.fn
+        for o in mir.provenance(fn, self.du, t["args"][1]):
+            if o.kind == "agg" and o.rv.get("closure") in self.F.fns:
+                caps = {}
+                for i, op in enumerate(o.rv.get("ops") or []):
+                    a = {x.local for x in mir.provenance(fn, self.du, op, transparent_extra=("std::ops::Deref::deref",)) if x.kind == "arg"}
+                    if len(a) == 1:
+                        caps[i] = a.pop()
+                return (self.F.fns[o.rv["closure"]], caps)
+        raise Shape("the predicate of %s is not a closure literal" % (t.get("callee") or "").split("::")[-1])
+
+    # per-closure interpretation -----------------------------------------------------------------
+    def _crole(self, g, du, op, state):
+        c = mir.op_const(op)
+        if c is not None and "int" in c:
+            return ("const", c["int"])
+        roles = set()
+        for o in mir.provenance(g, du, op, transparent_extra=VAL_TRANSPARENT):
+            if o.kind == "arg" and o.local == 2:
+                nums = [p for p in o.proj if p[:1] == "." and p[1:].isdigit()]
+                if nums and nums[-1] == ".1":
+                    roles.add(("iter",))
+                elif nums and nums[-1] == ".0":
+                    roles.add(("key",))
+                else:
+                    roles.add(None)
+            elif o.kind == "call" and o.term is state.get("get_t"):
+                roles.add(("get",))
+            elif o.kind == "const" and "int" in o.const:
+                roles.add(("const", o.const["int"]))
+            else:
+                roles.add(None)
+        return roles.pop() if len(roles) == 1 else None
+
+    def _ccmp(self, g, du, op, a, b, state, scenario):
+        ra, rb = self._crole(g, du, a, state), self._crole(g, du, b, state)
+        if ra is None or rb is None or ra == ("key",) or rb == ("key",):
+            raise Shape("comparison of something other than the two amounts and literals")
+        if (ra == ("get",) or rb == ("get",)) and not scenario["present"]:
+            raise Shape("the looked-up amount is compared on the absent edge")
+        x, y = scenario["rank"][ra], scenario["rank"][rb]
+        return {"Eq": x == y, "Ne": x != y, "Lt": x < y, "Le": x <= y, "Gt": x > y, "Ge": x >= y}[op]
+
+    def _eval_closure(self, g, caps, scenario, state):
+        du = mir.DefUse(g)
+        bb = 0
+        bools = {}
+        ret = None
+        steps = 0
+        while True:
+            steps += 1
+            if steps > 200:
+                raise Shape("closure body does not terminate structurally")
+            b = g["blocks"][bb]
+            for s in b["s"]:
+                rv = s["rv"]
+                l = s["lhs"]["l"]
+                if s["lhs"]["p"]:
+                    continue
+                v = None
+                if rv["k"] == "binop" and rv["op"] in ("Eq", "Ne", "Lt", "Le", "Gt", "Ge"):
+                    v = self._ccmp(g, du, rv["op"], rv["a"], rv["b"], state, scenario)
+                elif rv["k"] == "unop" and rv.get("op") == "Not":
+                    pl = mir.op_place(rv["a"])
+                    if pl is not None and pl["l"] in bools:
+                        v = not bools[pl["l"]]
+                elif rv["k"] == "use":
+                    pl = mir.op_place(rv["op"])
+                    c = mir.op_const(rv["op"])
+                    if c is not None and c.get("ty") == "bool" and "int" in c:
+                        v = bool(c["int"])
+                    elif pl is not None and not pl["p"] and pl["l"] in bools:
+                        v = bools[pl["l"]]
+                if v is not None:
+                    bools[l] = v
+                    if l == 0:
+                        ret = v
+                elif l == 0:
+                    ret = None
+                else:
+                    bools.pop(l, None)
+            t = b["t"]
+            k = t["k"]
+            if k == "return":
+                if ret is None:
+                    raise Shape("the closure returns something that is not a comparison result or a literal")
+                return ret
+            if k in ("goto", "drop"):
+                bb = t["t"]
+                continue
+            if k == "switch":
+                pl = mir.op_place(t["discr"])
+                if pl is None:
+                    raise Shape("switch on a constant")
+                if pl["l"] in bools:
+                    val = 1 if bools[pl["l"]] else 0
+                else:
+                    dl = None
+                    for s in b["s"]:
+                        if s["lhs"]["l"] == pl["l"] and s["rv"]["k"] == "discr":
+                            dl = s["rv"]["pl"]["l"]
+                    if dl is not None and state.get("get_t") is not None and dl == state["get_t"]["dest"]["l"]:
+                        val = 1 if scenario["present"] else 0
+                    else:
+                        raise Shape("branch on something that is not a comparison of the amounts or the lookup result")
+                tm = dict((v, tb) for v, tb in t["targets"])
+                bb = tm.get(val, t["otherwise"])
+                continue
+            if k == "call":
+                c = t.get("callee") or ""
+                name = c.split("::")[-1]
+                if name == "get" and ("HashMap" in c or "BTreeMap" in c or "CanonicalAssets" in c) and "get_t" not in state:
+                    recv = set()
+                    for o in mir.provenance(g, du, t["args"][0], transparent_extra=("std::ops::Deref::deref",)):
+                        if o.kind == "arg" and o.local == 1:
+                            for pr in o.proj:
+                                if pr[:1] == "." and pr[1:].isdigit() and int(pr[1:]) in caps:
+                                    recv.add(caps[int(pr[1:])])
+                    if not recv or self.iter_arg in recv:
+                        raise Shape("lookup is not in the other operand")
+                    if self._crole(g, du, t["args"][1], state) != ("key",):
+                        raise Shape("lookup key is not the iterated entry's key")
+                    state["get_t"] = t
+                    bb = t["t"]
+                    continue
+                if name in CMP_CALLS and ("PartialOrd" in c or "PartialEq" in c or "cmp::" in c) and len(t["args"]) == 2:
+                    v = self._ccmp(g, du, CMP_CALLS[name], t["args"][0], t["args"][1], state, scenario)
+                    if not t["dest"]["p"]:
+                        bools[t["dest"]["l"]] = v
+                        if t["dest"]["l"] == 0:
+                            ret = v
+                    bb = t["t"]
+                    continue
+                if c in VAL_TRANSPARENT or name in ("deref", "clone", "cloned", "copied"):
+                    bb = t["t"]
+                    continue
+                raise Shape("the predicate calls %s" % c.split("::<")[0])
+            raise Shape("unexpected terminator %s" % k)
+
+    def run(self, scenario):
+        state = {}
+        for kind, (g, caps) in self.stages:
+            v = self._eval_closure(g, caps, scenario, state)
+            if kind == "filter":
+                if not v:
+                    return "continue"
+            elif kind == "all":
+                return "continue" if v else (False != self.negated)
+            elif kind == "any":
+                return (True != self.negated) if v else "continue"
+        return "continue"
+
+    def exhausted_result(self):
+        return (self.quant == "all") != self.negated
+
+    def literals(self):
+        out = set()
+        for kind, (g, caps) in self.stages:
+            for _, _, s in mir.stmts(g):
+                rv = s["rv"]
+                if rv["k"] == "binop" and rv["op"] in ("Eq", "Ne", "Lt", "Le", "Gt", "Ge"):
+                    for o in (rv["a"], rv["b"]):
+                        c = mir.op_const(o)
+                        if c is not None and "int" in c:
+                            out.add(c["int"])
+            for _, t in mir.calls(g):
+                for o in t["args"]:
+                    c = mir.op_const(o)
+                    if c is not None and "int" in c and (t.get("callee") or "").split("::")[-1] in CMP_CALLS:
+                        out.add(c["int"])
+        return out
+
+
+def predicate(F, fn):
+    """the entry-wise decision procedure of fn, whichever of the recognised shapes it is written in"""
+    try:
+        return EntryPredicate(F, fn)
+    except Shape as e1:
+        try:
+            return ChainPredicate(F, fn)
+        except Shape as e2:
+            raise Shape("%s; %s" % (e1, e2))
+
+
 def describe(sc, lits):
     r = sc["rank"]
 
